@@ -28,8 +28,9 @@ MSG = codec.MSG_MOD
 META = wire.META_MOD
 
 
-def samples(ai, ctx):
-    """label -> (factory, class name)"""
+def samples(ai, ctx, unusual=False):
+    """label -> (factory, class name); with unusual=True also messages in states the API allows and the constructors would not
+    make again: built with skip_checks=True, or holding a list where a reader would have put a tuple."""
     def msg():
         return wire.make_message(ctx, 'note_on', {'channel': smf.sym('ch', 15), 'note': smf.sym('n', 127), 'velocity': smf.sym('v', 127)}, smf.sym('t', 1000))
 
@@ -45,8 +46,26 @@ def samples(ai, ctx):
     def unknown():
         cls = ctx.p.cls(META, 'UnknownMetaMessage')
         return AObj(cls, {'type': 'unknown_meta', 'type_byte': 0x60, 'data': AList([SeqVar('U', 255)], 'tuple'), 'time': smf.sym('t', 1000)})
-    return {'Message': (msg, 'Message'), 'Message(sysex)': (sysex, 'Message'), 'MetaMessage': (meta, 'MetaMessage'),
-            'MetaMessage(text)': (text, 'MetaMessage'), 'UnknownMetaMessage': (unknown, 'UnknownMetaMessage')}
+    out = {'Message': (msg, 'Message'), 'Message(sysex)': (sysex, 'Message'), 'MetaMessage': (meta, 'MetaMessage'),
+           'MetaMessage(text)': (text, 'MetaMessage'), 'UnknownMetaMessage': (unknown, 'UnknownMetaMessage')}
+    if unusual:
+        def unchecked():
+            return wire.make_message(ctx, 'note_on', {'channel': 0, 'note': 300, 'velocity': 64}, 0)
+
+        def seqspec_default():
+            return wire.make_meta(ai, ctx, 'sequencer_specific', {'data': AList([], 'list')}, 0)
+
+        def seqspec_list():
+            return wire.make_meta(ai, ctx, 'sequencer_specific', {'data': AList([0x43, 1], 'list')}, 5)
+
+        def unknown_list():
+            cls = ctx.p.cls(META, 'UnknownMetaMessage')
+            return AObj(cls, {'type': 'unknown_meta', 'type_byte': 0x60, 'data': AList([1, 2, 3], 'list'), 'time': 0})
+        out.update({'Message(skip_checks=True, note=300)': (unchecked, 'Message'),
+                    'MetaMessage(sequencer_specific, default data [])': (seqspec_default, 'MetaMessage'),
+                    'MetaMessage(sequencer_specific, data given as a list)': (seqspec_list, 'MetaMessage'),
+                    'UnknownMetaMessage(data assigned a list)': (unknown_list, 'UnknownMetaMessage')})
+    return out
 
 
 FROZEN_OF = {'Message': 'FrozenMessage', 'MetaMessage': 'FrozenMetaMessage', 'UnknownMetaMessage': 'FrozenUnknownMetaMessage'}
@@ -79,7 +98,7 @@ def r15_freeze_thaw(ctx):
     th = ctx.fn(ctx.p.func(FZ, 'thaw_message'))
     wf, wt = ctx.where(fr), ctx.where(th)
     n = 0
-    for label, (factory, clsname) in samples(ai, ctx).items():
+    for label, (factory, clsname) in samples(ai, ctx, unusual=True).items():
         n += 1
         holder = {}
 
@@ -112,7 +131,7 @@ def r15_freeze_thaw(ctx):
         ok = isinstance(t2, AObj) and t2.cls == m.cls and t2 is not m and t2.attrs is not m.attrs and attrs_equal(t2.attrs, holder['before'])
         ctx.require(ok, 'R15.1', f'thaw({label}) of a non-frozen', wt, f'thaw of a non-frozen message is {t2!r}, expected an independent copy',
                     construct=f'{th.qname}::{clsname}::copy')
-    ctx.floor('R15.2', n, 5)
+    ctx.floor('R15.2', n, 9)
     for fn, w in ((fr, wf), (th, wt)):
         outs = ai.explore(lambda: ai.call_function(fn, [None], {}))
         ok = len(outs) == 1 and outs[0].kind == 'return' and outs[0].value is None
